@@ -1,7 +1,7 @@
 """Generators of cache configurations and operation sequences (one PRNG, everything derived from it)."""
 from cache_trace import ALGS, UNHASH, UNENC, LAMBDA, UNHASHF
 
-PERSISTENT = ('file', 'dir', 'sql')
+PERSISTENT = ('file', 'file-json', 'dir', 'sql')
 
 
 def gen_cfg(rng, focus=None, thorough=False):
@@ -12,13 +12,17 @@ def gen_cfg(rng, focus=None, thorough=False):
     if backends is None:
         backends = ['plain', 'dict0', 'null', 'dictarch', 'dictarch', 'dictarch', 'direct-dict']
         if thorough or rng.random() < 0.25:
-            backends = backends + ['file', 'dir', 'sql', 'direct-file', 'direct-dir']
+            backends = backends + ['file', 'file-json', 'dir', 'sql', 'direct-file', 'direct-dir']
     backend = rng.choice(backends)
     keymaps = focus.get('keymaps')
     if keymaps is None:
         keymaps = ['hash', 'hash', 'raw', 'str', 'md5', 'default', 'pickle', 'hash-typed', 'str-nf', 'md5-typed',
                    'pickle-std', 'raw-typed']
     keymap = rng.choice(keymaps)
+    if backend in ('direct-file', 'direct-dir') and keymap == 'raw-nf':
+        keymap = 'raw'        # an unhashable key is a usable key for these archives: outside the integer-key model
+    if backend == 'file-json' and keymap not in ('str', 'md5', 'md5-typed'):
+        keymap = rng.choice(['str', 'md5'])      # json object keys are strings
     if backend == 'sql' and keymap in ('raw', 'raw-nf', 'pickle', 'raw-typed', 'pickle-std'):
         keymap = 'str'                      # sqlite cannot bind tuples; bytes keys are fine but slow
     if backend in ('dir', 'direct-dir') and keymap in ('pickle', 'pickle-std'):
@@ -110,10 +114,12 @@ def gen_ops(rng, cfg, n, focus=None):
                 return rng.choice(cfg['special'])
             if allow_special and 'typed' in cfg['keymap'] and cfg.get('stub') != 'var' and rng.random() < focus.get('p_twin', 0.1) * (2 if cfg.get('stub') == 'req2' else 1):
                 return ('t', rng.randrange(6))
-            if allow_special and rng.random() < 0.12:
+            if allow_special and rng.random() < focus.get('p_float', 0.12):
                 r2 = rng.random()
-                if r2 < 0.45:
+                if r2 < 0.3:
                     return ('f', rng.randrange(5))
+                if r2 < 0.45 and 'raw' not in cfg['keymap']:
+                    return ('ft', rng.randrange(5))
                 if r2 < 0.75 and 'typed' in cfg['keymap'] and cfg.get('stub') != 'var':
                     return ('t', rng.randrange(6))
                 if cfg.get('stub') == 'var' and cfg['keymap'] not in ('str', 'str-nf') and cfg['backend'] not in ('dir', 'direct-dir'):
